@@ -87,6 +87,9 @@ func (w *ConfigurationWatcher) Start(ch chan<- controller.ID) error {
 		for event := range eventCh {
 			ch <- controller.NewID(proposalstore.NewID(event.Configuration.TargetID, event.Configuration.Index))
 			ch <- controller.NewID(proposalstore.NewID(event.Configuration.TargetID, event.Configuration.Status.Applied.Index))
+			// Configuration.Index goes back when a change is rolled back: the latest proposal of the target is
+			// the one from which the chain of "requeue the predecessor" reaches whatever can make progress now
+			ch <- controller.NewID(proposalstore.NewID(event.Configuration.TargetID, event.Configuration.Status.Proposed.Index))
 		}
 	}()
 	return nil
